@@ -154,8 +154,15 @@ static int compare_prefix_noaccent(const char* key, const char* elm, int n) {
         if (*key == '\0') {
             break;
         }
-        if (i >= n && key[1] == '\0') {
-            break;
+        if (i >= n) {
+            /* the key ends with this character and its accents */
+            const char* next = key + 1;
+            while ((*next & 0x80) != 0) { /* skip non-ASCII */
+                ++next;
+            }
+            if (*next == '\0') {
+                break;
+            }
         }
         if (*key != *elm) {
             break;
